@@ -271,6 +271,7 @@ package cli
 //@   maypanic
 //@   ensures wf: allCmdWF(fieldHeap(c.options), fieldHeap(c.args), fieldHeap(c.commands), fieldHeap(c.optionsIdx), fieldHeap(c.argsIdx))
 //@   ensures no-flow: noFlow(old(trace), trace)
+//@   ensures flushed-last: len(trace) > len(old(trace)) && trace[len(trace)-1].kind == 3 && trace[len(trace)-1].b == 1
 //@   loop 1 invariant rows: trace == argRowsT(headT(old(trace), ival(stdErr), strings_Join(old(c.parents) ++ seq(c.name), " "), c.Spec, len(c.commands), (longDesc && len(c.LongDesc) > 0) ? c.LongDesc : c.desc) ++ seq(evOut(w, fmt_sprint(seq(toIface("string", "\t\nArguments:\t\n"))))), w, c.args, $k, fieldHeap(c.args[0].Name), fieldHeap(c.args[0].Desc), fieldHeap(c.args[0].EnvVar), fieldHeap(c.args[0].HideValue), fieldHeap(c.args[0].DefaultValue))
 //@   loop 2 invariant rows: trace == optRowsT((len(c.args) > 0 ? argRowsT(headT(old(trace), ival(stdErr), strings_Join(old(c.parents) ++ seq(c.name), " "), c.Spec, len(c.commands), (longDesc && len(c.LongDesc) > 0) ? c.LongDesc : c.desc) ++ seq(evOut(w, fmt_sprint(seq(toIface("string", "\t\nArguments:\t\n"))))), w, c.args, len(c.args), fieldHeap(c.args[0].Name), fieldHeap(c.args[0].Desc), fieldHeap(c.args[0].EnvVar), fieldHeap(c.args[0].HideValue), fieldHeap(c.args[0].DefaultValue)) : headT(old(trace), ival(stdErr), strings_Join(old(c.parents) ++ seq(c.name), " "), c.Spec, len(c.commands), (longDesc && len(c.LongDesc) > 0) ? c.LongDesc : c.desc)) ++ seq(evOut(w, fmt_sprint(seq(toIface("string", "\t\nOptions:\t\n"))))),
 //@       w, c.options, $k, fieldHeap(c.args[0].Names), fieldHeap(c.args[0].Name), fieldHeap(c.args[0].Desc), fieldHeap(c.args[0].EnvVar), fieldHeap(c.args[0].HideValue), fieldHeap(c.args[0].DefaultValue))
